@@ -248,7 +248,7 @@ impl Agg {
         *self.per_subject.entry(cfg.subject.name().to_string()).or_default() += 1;
         *self.per_workload.entry(format!("{:?}", wl)).or_default() += 1;
         for v in &r.violations {
-            if v.property == prop {
+            if counts_for(prop, v, cfg.subject) {
                 let key = (v.property.clone(), v.oracle.clone(), cfg.subject.name().to_string());
                 let e = self.found.entry(key).or_insert((0, seed, index, wl, sweep_k, v.detail.clone()));
                 e.0 += 1;
@@ -267,6 +267,29 @@ impl Agg {
                 "child_polls": r.child_polls,
             }));
         }
+    }
+}
+
+/// A violation is primarily tagged with one property; some oracles also decide another property
+/// for particular subjects (an ordered queue that loses or invents an output is not a queue).
+fn counts_for(prop: &str, v: &world::Violation, subject: SubjectKind) -> bool {
+    if v.property == prop {
+        return true;
+    }
+    use SubjectKind::*;
+    let o = v.oracle.as_str();
+    match prop {
+        "C04" => {
+            (matches!(subject, FOB | FO)
+                && v.property == "C02"
+                && matches!(o, "none-while-holding" | "pending-while-empty" | "yielded-not-held" | "ready-not-yielded" | "duplicate-output"))
+                || (matches!(subject, BO | TBO)
+                    && v.property == "C10"
+                    && matches!(o, "ended-early" | "yielded-not-in-flight" | "pending-when-done" | "duplicate-output"))
+        }
+        "C02" => matches!(subject, FUB | FU | FOB | FO) && v.property == "C04" && o == "out-of-order",
+        "C11" => matches!(subject, MB | MU) && v.property == "C02",
+        _ => false,
     }
 }
 
@@ -485,7 +508,7 @@ fn cmd_check(args: &[String]) -> i32 {
     let mut viol_json: Vec<serde_json::Value> = vec![];
     for ((p, oracle, subject), (count, seed, index, wl, sweep_k, detail)) in &agg.found {
         let is_known = known.findings.iter().any(|k| {
-            k.status == "known" && &k.property == p && &k.oracle == oracle && (k.subjects.is_empty() || k.subjects.iter().any(|s| s == "*" || s == subject))
+            k.status == "known" && (&k.property == p || k.property == prop) && &k.oracle == oracle && (k.subjects.is_empty() || k.subjects.iter().any(|s| s == "*" || s == subject))
         });
         let sk = parse_subject(subject).unwrap();
         let (cfg, base) = gen::generate(*wl, sk, *seed);
@@ -518,10 +541,10 @@ fn cmd_check(args: &[String]) -> i32 {
         viol_json.push(serde_json::json!({"property": p, "oracle": oracle, "subject": subject, "count": count, "replay": path, "known": is_known, "detail": detail2, "minimised_ops": sh.trace.len(), "original_ops": trace.len()}));
         if is_known {
             known_hits.push(format!("{}/{}/{}", p, oracle, subject));
-            lines.push(format!("KNOWN-FINDING: property={} {}/{} on {} ({} runs): {} [replay={}]", p, p, oracle, subject, count, detail2, path));
+            lines.push(format!("KNOWN-FINDING: property={} {}/{} on {} ({} runs): {} [replay={}]", prop, p, oracle, subject, count, detail2, path));
         } else {
             violations += 1;
-            lines.push(format!("VIOLATION property={} replay={}", p, path));
+            lines.push(format!("VIOLATION property={} replay={}", prop, path));
             lines.push(format!("  oracle={} subject={} runs_failing={} minimised_ops={} (from {}): {}", oracle, subject, count, sh.trace.len(), trace.len(), detail2));
         }
     }
